@@ -136,7 +136,71 @@ def _entry_points(ctx: Ctx, rng):
     ctx.distinct.add(("entry", frame.coq(), rhs, tuple(cd)))
 
 
+def _value_types(ctx: Ctx):
+    """factors whose values are supplied by the caller's context in each container type the null handling dispatches on (list, 1-D and 2-D
+    numpy arrays, pandas Series, dict of columns), with nulls in several rows next to a data column with its own nulls: exactly the rows
+    with a null in some evaluated factor (and the caller's rows) go, and every remaining cell sits in the row it came from"""
+    import numpy as np
+    import pandas as pd
+    from formulaic import model_matrix
+    rng = ctx.fork("value-types")
+    nan = float("nan")
+    for i in range(ctx.n(150, 2500)):
+        n = rng.randint(4, 9)
+        def col(p):
+            return [nan if rng.random() < p else float(rng.randint(-9, 9)) + 100.0 * k for k in range(n)]
+        x = col(rng.choice([0, 0.2, 0.4]))
+        kind = rng.choice(["list", "array", "array2d", "series", "dict", "intlist"])
+        p = rng.choice([0.15, 0.3, 0.5])
+        if kind == "list":
+            cols = [col(p)]; val = list(cols[0])
+        elif kind == "intlist":
+            cols = [[float(rng.randint(0, 5)) for _ in range(n)]]; val = [int(v) for v in cols[0]]
+        elif kind == "array":
+            cols = [col(p)]; val = np.array(cols[0])
+        elif kind == "series":
+            cols = [col(p)]; val = pd.Series(cols[0])
+        elif kind == "array2d":
+            cols = [col(p), col(p / 2)]; val = np.array(cols).T.copy()
+        else:
+            cols = [col(p), col(p / 2)]; val = {"u": list(cols[0]), "v": list(cols[1])}
+        na = rng.choice(["drop", "drop", "drop", "raise", "ignore"])
+        cd = sorted(set(rng.randrange(n) for _ in range(rng.choice([0, 0, 1, 2]))))
+        out = rng.choice(["pandas", "numpy", "sparse"])
+        mat = rng.choice(["pandas", "pandas", "narwhals"])
+        idx = rng.choice([None, "rev", "dup"])
+        df = pd.DataFrame({"x": x}, index=None if idx is None else (list(range(n, 0, -1)) if idx == "rev" else [7] * n))
+        rp = {"kind": "value-types", "value": kind, "x": x, "w": cols, "na_action": na, "drop_rows": cd, "output": out, "materializer": mat, "index": idx}
+        nulls = sorted(r for r in range(n) if x[r] != x[r] or any(c[r] != c[r] for c in cols))
+        ctx.oracle_runs += 1
+        ctx.count("value-types", kind)
+        dr = set(cd)
+        try:
+            mm = model_matrix("0 + x + w", df, context={"w": val}, na_action=na, drop_rows=dr, output=out, materializer=mat)
+        except ValueError as e:
+            if not (na == "raise" and nulls):
+                ctx.fail(f"value of type {kind}: {type(e).__name__}: {str(e)[:200]}", rp)
+            continue
+        except Exception as e:
+            ctx.fail(f"value of type {kind}: {type(e).__name__}: {str(e)[:200]}", rp)
+            continue
+        if na == "raise" and nulls:
+            ctx.fail(f"na_action='raise' with nulls in rows {nulls} (value of type {kind}) did not raise", rp)
+            continue
+        gone = sorted(set(cd) | set(nulls)) if na == "drop" else sorted(cd)
+        kept = [r for r in range(n) if r not in gone]
+        got = np.asarray(mm.toarray() if out == "sparse" else mm, dtype=float)
+        want = np.array([[x[r]] + [c[r] for c in cols] for r in kept], dtype=float).reshape(len(kept), 1 + len(cols))
+        if sorted(int(r) for r in dr) != gone:
+            ctx.fail(f"value of type {kind}: the drop set ended as {sorted(int(r) for r in dr)}, the rows with a null (or listed by the caller) are {gone}", rp)
+        elif got.shape != want.shape or not np.array_equal(got, want, equal_nan=True):
+            ctx.fail(f"value of type {kind}: rows {gone} removed, the matrix is {got.tolist()}; the kept rows {kept} of (x, w) are {want.tolist()}", rp)
+        elif out == "pandas" and mat == "pandas" and list(mm.index) != [list(df.index)[r] for r in kept]:
+            ctx.fail(f"value of type {kind}: index labels {list(mm.index)} are not those of the kept rows", rp)
+
+
 def run(ctx: Ctx):
+    _value_types(ctx)
     rng = ctx.fork("c06")
     lits, descr = [], []
     # (i) exhaustive small null patterns
